@@ -387,7 +387,9 @@ def pippenger_harnesses(rep, tier):
     T.append(lambda: none_harness(rep, "simd", simd, "EdwardsPoint::optional_multiscalar_mul (vector vartime Straus): None point => None", "vp_g_optional_multiscalar_mul", 3, backend="avx2"))
     if tier != "quick":
         T.append(lambda: pippenger_harness(rep, "serial64", s64, "serial Pippenger n=3 (w=6)", "vp_g_pippenger", 3, 3, "3 points, all digit vectors"))
-        for n, w in ((500, 7), (800, 8)):
+    # w = 8 (n >= 800) is the only width whose recoding yields the digit -128 (bucket 127): in the quick tier too since seed C13-m6
+    if True:
+        for n, w in (((800, 8),) if tier == "quick" else ((500, 7), (800, 8))):
             T.append(lambda n=n, w=w: pippenger_harness(rep, "serial64", s64, "serial Pippenger n=%d (w=%d), 2 symbolic scalars + %d zero scalars" % (n, w, n - 2), "vp_g_pippenger", n, 2,
                      "%d points; scalars 0,1 arbitrary (all radix-2^%d digit vectors), the others 0" % (n, w)))
     return T
